@@ -1,2 +1,292 @@
-(* C04 — stub *)
-From Zap Require Import Base.Wire C04.Model.
+(* C04 -- proofs about zap's logging path over the interleaving machine. *)
+From Coq Require Import List ZArith Bool Arith Lia.
+From Coq.Strings Require Import Byte.
+Import ListNotations.
+From Zap Require Import Base.Wire C04.Model C04.Atomic C04.Merge.
+
+Notation zexec_acts := (exec_acts sinkst sact sact_run).
+Notation zexec_items := (exec_items sinkst sact sact_run item item_sec).
+Notation zon_lock := (on_lock sact item item_sec).
+
+(* ------------------------------------------------------------------ *)
+(* A. serial behaviour of the sink calls                                *)
+(* ------------------------------------------------------------------ *)
+Lemma exec_app_chunks u chunks : forall x,
+  bbuf (zexec_acts (map (AApp u) chunks) x) = bbuf x /\
+  forall v, outs (zexec_acts (map (AApp u) chunks) x) v = if Nat.eqb v u then outs x v ++ concat chunks else outs x v.
+Proof.
+  induction chunks as [|c r IH]; intros x; cbn [map concat].
+  - split; [reflexivity|]. intros v. cbn. destruct (Nat.eqb v u); [now rewrite app_nil_r|reflexivity].
+  - unfold exec_acts in *. cbn [fold_left sact_run]. destruct (IH (app_out x u c)) as [B O]. split; [exact B|].
+    intros v. rewrite O. cbn [app_out outs]. unfold upd. destruct (Nat.eqb_spec v u) as [->|]; [|reflexivity].
+    now rewrite <- app_assoc.
+Qed.
+
+Lemma exec_acts_app a b x : zexec_acts (a ++ b) x = zexec_acts b (zexec_acts a x).
+Proof. unfold exec_acts. apply fold_left_app. Qed.
+
+Lemma exec_locked_write chunks k : forall a x,
+  bbuf (zexec_acts (flat_map (fun u => map (AApp u) chunks) (seq a k)) x) = bbuf x /\
+  forall v, outs (zexec_acts (flat_map (fun u => map (AApp u) chunks) (seq a k)) x) v =
+            if (a <=? v) && (v <? a + k) then outs x v ++ concat chunks else outs x v.
+Proof.
+  induction k as [|k IH]; intros a x; cbn [seq flat_map].
+  - split; [reflexivity|]. intros v. unfold exec_acts. cbn [fold_left].
+    destruct (Nat.leb_spec a v), (Nat.ltb_spec v (a + 0)); cbn [andb]; try reflexivity; lia.
+  - rewrite exec_acts_app. destruct (exec_app_chunks a chunks x) as [B1 O1].
+    destruct (IH (S a) (zexec_acts (map (AApp a) chunks) x)) as [B2 O2]. split; [now rewrite B2|].
+    intros v. rewrite O2, O1.
+    destruct (Nat.eqb_spec v a) as [->|Hne].
+    + replace (S a <=? a) with false by (symmetry; apply Nat.leb_gt; lia). cbn [andb].
+      rewrite Nat.leb_refl. replace (a <? a + S k) with true by (symmetry; apply Nat.ltb_lt; lia). reflexivity.
+    + destruct (Nat.leb_spec (S a) v), (Nat.leb_spec a v), (Nat.ltb_spec v (S a + k)), (Nat.ltb_spec v (a + S k)); cbn; try reflexivity; lia.
+Qed.
+
+(* an item of branch j whose sink has kind kd *)
+Definition bitem (j : nat) (kd : bkind) (it : item) : Prop :=
+  it = IFlush j \/ exists chunks, it = IWrite j kd chunks.
+
+Lemma sflush_nil x : bbuf x = [] -> sflush x = x.
+Proof. intros H. unfold sflush. now rewrite H. Qed.
+
+Lemma serial_locked j k its : Forall (bitem j (KLocked k)) its -> forall x, bbuf x = [] ->
+  bbuf (zexec_items its x) = [] /\
+  forall u, u < k -> outs (zexec_items its x) u = outs x u ++ concat (flat_map item_lines its).
+Proof.
+  induction 1 as [|it r Hit _ IH]; intros x Hx.
+  - split; [exact Hx|]. intros u _. cbn. now rewrite app_nil_r.
+  - unfold exec_items in *. cbn [fold_left].
+    destruct Hit as [->|(chunks & ->)]; cbn [item_sec snd item_lines flat_map app].
+    + cbn. rewrite (sflush_nil x Hx). now apply IH.
+    + cbn [write_acts]. destruct (exec_locked_write chunks k 0 x) as [B O].
+      destruct (IH (zexec_acts (flat_map (fun u => map (AApp u) chunks) (seq 0 k)) x)) as [B' O']; [now rewrite B|].
+      split; [exact B'|]. intros u Hu. rewrite (O' u Hu), O. cbn [Nat.leb andb].
+      replace (u <? 0 + k) with true by (symmetry; apply Nat.ltb_lt; lia).
+      cbn [concat]. now rewrite <- app_assoc.
+Qed.
+
+(* BufferedWriteSyncer: whole-write alignment (DESIGN Appendix F, C12) on the raw stream *)
+Definition BInv (acc : list bytes) (x : sinkst) : Prop :=
+  exists done rest, acc = done ++ rest /\ outs x 0 = concat done /\ bbuf x = concat rest.
+
+Lemma binv_flush acc x : BInv acc x -> BInv acc (sflush x) /\ bbuf (sflush x) = [].
+Proof.
+  intros (done & rest & A & O & B). unfold sflush. destruct (bbuf x) as [|b r] eqn:E.
+  - split; [|exact E]. exists done, rest. now rewrite E.
+  - split; [|reflexivity]. exists (done ++ rest), []. cbn [outs bbuf]. rewrite upd_same. repeat split.
+    + now rewrite app_nil_r.
+    + now rewrite concat_app, O, B.
+Qed.
+
+Lemma binv_direct acc x p : BInv acc x -> bbuf x = [] ->
+  BInv (acc ++ [p]) {| outs := upd (outs x) 0 (outs x 0 ++ p); bbuf := [] |}.
+Proof.
+  intros (done & rest & A & O & B) E. exists (done ++ rest ++ [p]), []. cbn [outs bbuf]. rewrite upd_same. repeat split.
+  - now rewrite A, !app_nil_r, app_assoc.
+  - rewrite !concat_app, O. cbn. rewrite app_nil_r. rewrite E in B. now rewrite <- B.
+Qed.
+
+Lemma binv_append acc x p : BInv acc x -> BInv (acc ++ [p]) {| outs := outs x; bbuf := bbuf x ++ p |}.
+Proof.
+  intros (done & rest & A & O & B). exists done, (rest ++ [p]). cbn [outs bbuf]. repeat split.
+  - now rewrite A, app_assoc.
+  - exact O.
+  - rewrite concat_app, B. cbn. now rewrite app_nil_r.
+Qed.
+
+Lemma binv_write size acc x p : BInv acc x -> BInv (acc ++ [p]) (bws_write size x p).
+Proof.
+  intros I. unfold bws_write.
+  destruct ((size - length (bbuf x) <? length p) && negb (is_nil (bbuf x))) eqn:C.
+  - destruct (binv_flush acc x I) as [I1 E1]. cbn [bwrite]. rewrite E1.
+    destruct (size - length (@nil byte) <? length p); [now apply binv_direct|].
+    rewrite <- E1. now apply binv_append.
+  - cbn [bwrite]. destruct (size - length (bbuf x) <? length p) eqn:D.
+    + cbn [andb] in C. apply negb_false_iff in C. destruct (bbuf x) eqn:E; [|discriminate]. now apply binv_direct.
+    + now apply binv_append.
+Qed.
+
+Lemma serial_buffered j size its : Forall (bitem j (KBuffered size)) its -> forall acc x, BInv acc x ->
+  BInv (acc ++ flat_map item_lines its) (zexec_items its x).
+Proof.
+  induction 1 as [|it r Hit _ IH]; intros acc x I.
+  - cbn. now rewrite app_nil_r.
+  - unfold exec_items in *. cbn [fold_left].
+    destruct Hit as [->|(chunks & ->)]; cbn [item_sec snd item_lines flat_map app].
+    + cbn. apply IH. now apply binv_flush.
+    + cbn [write_acts]. unfold exec_acts at 2. cbn [fold_left sact_run].
+      change (concat chunks :: flat_map item_lines r) with ([concat chunks] ++ flat_map item_lines r).
+      rewrite app_assoc. apply IH. now apply binv_write.
+Qed.
+
+Lemma binv_sink0 : BInv [] sink0.
+Proof. exists [], []. auto. Qed.
+
+(* serial execution of the calls of one branch from the empty sink, then the final Sync *)
+Lemma serial_out j kd its : Forall (bitem j kd) its -> forall u, u < nsinks kd ->
+  outs (sflush (zexec_items its sink0)) u = concat (flat_map item_lines its).
+Proof.
+  intros F u Hu. destruct kd as [k|size]; cbn [nsinks] in Hu.
+  - destruct (serial_locked j k its F sink0 eq_refl) as [B O]. rewrite (sflush_nil _ B). now rewrite (O u Hu).
+  - assert (u = 0) by lia. subst u.
+    pose proof (serial_buffered j size its F [] sink0 binv_sink0) as I. cbn [app] in I.
+    destruct (binv_flush _ _ I) as [(done & rest & A & O & B) E]. rewrite E in B.
+    rewrite O, A, concat_app, <- B. now rewrite app_nil_r.
+Qed.
+
+(* before the final Sync a buffered sink holds a whole number of lines: a prefix of the order *)
+Lemma serial_buffered_prefix j size its : Forall (bitem j (KBuffered size)) its ->
+  exists n, outs (zexec_items its sink0) 0 = concat (firstn n (flat_map item_lines its)).
+Proof.
+  intros F. pose proof (serial_buffered j size its F [] sink0 binv_sink0) as (done & rest & A & O & _).
+  cbn [app] in A. exists (length done). rewrite A, firstn_app, Nat.sub_diag, firstn_all. cbn. now rewrite app_nil_r.
+Qed.
+
+(* ------------------------------------------------------------------ *)
+(* B. shape of the compiled code                                        *)
+(* ------------------------------------------------------------------ *)
+Lemma on_lock_app l a b : zon_lock l (a ++ b) = zon_lock l a ++ zon_lock l b.
+Proof. unfold on_lock. apply filter_app. Qed.
+
+Lemma on_lock_all l its : (forall it, In it its -> fst (item_sec it) = l) -> zon_lock l its = its.
+Proof.
+  induction its as [|it r IH]; intros H; [reflexivity|]. unfold on_lock in *. cbn [filter].
+  rewrite (H it (or_introl eq_refl)), Nat.eqb_refl. f_equal. apply IH. intros i Hi. apply H. now right.
+Qed.
+Lemma on_lock_none l its : (forall it, In it its -> fst (item_sec it) <> l) -> zon_lock l its = [].
+Proof.
+  induction its as [|it r IH]; intros H; [reflexivity|]. unfold on_lock in *. cbn [filter].
+  destruct (Nat.eqb_spec (fst (item_sec it)) l) as [E|_]; [now elim (H it (or_introl eq_refl))|].
+  apply IH. intros i Hi. apply H. now right.
+Qed.
+
+(* per-branch code generators: everything they emit for branch (j, kd) is a call on lock j *)
+Definition per_branch (f : nat * bkind -> list item) : Prop :=
+  forall jk it, In it (f jk) -> fst (item_sec it) = fst jk.
+
+Lemma on_lock_branches_aux f (Hf : per_branch f) j kd : forall c a,
+  (a <= j -> nth_error c (j - a) = Some kd ->
+   zon_lock j (flat_map f (combine (seq a (length c)) c)) = f (j, kd)) /\
+  (j < a -> zon_lock j (flat_map f (combine (seq a (length c)) c)) = []).
+Proof.
+  induction c as [|k0 c IH]; intros a; cbn [length seq combine flat_map].
+  - split; [intros _ H; destruct (j - a); discriminate|reflexivity].
+  - destruct (IH (S a)) as [IH1 IH2]. split.
+    + intros La Hn. rewrite on_lock_app. destruct (Nat.eq_dec a j) as [->|Hne].
+      * rewrite Nat.sub_diag in Hn. cbn in Hn. injection Hn as ->.
+        rewrite IH2 by lia. rewrite app_nil_r. apply on_lock_all. intros it Hi. apply (Hf _ _ Hi).
+      * rewrite (on_lock_none j (f (a, k0))) by (intros it Hi; rewrite (Hf _ _ Hi); cbn; lia).
+        cbn [app]. apply IH1; [lia|]. replace (j - a) with (S (j - S a)) in Hn by lia. exact Hn.
+    + intros L. rewrite on_lock_app, IH2 by lia. rewrite app_nil_r.
+      apply on_lock_none. intros it Hi. rewrite (Hf _ _ Hi). cbn. lia.
+Qed.
+
+Lemma on_lock_branches f (Hf : per_branch f) cfg j kd : nth_error cfg j = Some kd ->
+  zon_lock j (flat_map f (branches cfg)) = f (j, kd).
+Proof.
+  intros H. unfold branches. apply (proj1 (on_lock_branches_aux f Hf j kd cfg 0)); [lia|now rewrite Nat.sub_0_r].
+Qed.
+
+Definition log_gen (e : entry) (jk : nat * bkind) : list item :=
+  IWrite (fst jk) (snd jk) (nth (fst jk) (echunks e) []) :: (if esync e then [IFlush (fst jk)] else []).
+Definition sync_gen (jk : nat * bkind) : list item := [IFlush (fst jk)].
+
+Lemma log_gen_pb e : per_branch (log_gen e).
+Proof. intros jk it [<-|H]; [reflexivity|]. cbn in H. destruct (esync e); [destruct H as [<-|[]]; reflexivity|destruct H]. Qed.
+Lemma sync_gen_pb : per_branch sync_gen.
+Proof. intros jk it [<-|[]]. reflexivity. Qed.
+
+Lemma op_items_on cfg j kd o : nth_error cfg j = Some kd ->
+  Forall (bitem j kd) (zon_lock j (op_items cfg o)) /\
+  flat_map item_lines (zon_lock j (op_items cfg o)) = match o with OLog e => [eline j e] | _ => [] end.
+Proof.
+  intros H. destruct o as [e| |j']; cbn [op_items].
+  - unfold log_items. change (fun jk : nat * bkind => _) with (log_gen e).
+    rewrite (on_lock_branches _ (log_gen_pb e) cfg j kd H). unfold log_gen. cbn [fst snd]. split.
+    + constructor; [right; eauto|]. destruct (esync e); [constructor; [now left|constructor]|constructor].
+    + cbn [flat_map item_lines app]. unfold eline. destruct (esync e); reflexivity.
+  - replace (map (fun jk : nat * bkind => IFlush (fst jk)) (branches cfg)) with (flat_map sync_gen (branches cfg))
+      by (induction (branches cfg) as [|x r IHr]; [reflexivity|cbn; now rewrite IHr]).
+    rewrite (on_lock_branches _ sync_gen_pb cfg j kd H). cbn. split; [constructor; [now left|constructor]|reflexivity].
+  - unfold on_lock. cbn [filter item_sec fst]. destruct (Nat.eqb_spec j' j) as [->|]; cbn; split; auto.
+    constructor; [now left|constructor].
+Qed.
+
+Lemma thread_items_on cfg j kd ops : nth_error cfg j = Some kd ->
+  Forall (bitem j kd) (zon_lock j (thread_items cfg ops)) /\
+  flat_map item_lines (zon_lock j (thread_items cfg ops)) = thread_lines j ops.
+Proof.
+  intros H. induction ops as [|o r [IH1 IH2]]; [split; [constructor|reflexivity]|].
+  unfold thread_items, thread_lines in *. cbn [flat_map]. rewrite on_lock_app.
+  destruct (op_items_on cfg j kd o H) as [F L]. split.
+  - apply Forall_app. split; assumption.
+  - rewrite flat_map_app, L, IH2. reflexivity.
+Qed.
+
+Lemma merge_ext {B} (f g : nat -> list B) sigma : (forall t, f t = g t) -> MergeOf f sigma -> MergeOf g sigma.
+Proof. intros E (lab & Hm & Ho). exists lab. split; [exact Hm|]. intros t. now rewrite Ho. Qed.
+
+Lemma owned_in {B} t (x : B) lab : In (t, x) lab -> In x (owned t lab).
+Proof. intros H. unfold owned. apply in_map_iff. exists (t, x). split; [reflexivity|]. apply filter_In. split; [exact H|cbn; apply Nat.eqb_refl]. Qed.
+
+(* ------------------------------------------------------------------ *)
+(* C. the concurrent theorems                                           *)
+(* ------------------------------------------------------------------ *)
+(* every complete schedule leaves branch j in the state of a serial execution of
+   its sink calls, in an order whose lines are a merge of the threads' lines *)
+Lemma branch_serial cfg prog sched j kd :
+  nth_error cfg j = Some kd -> zcomplete (zrun cfg prog sched) ->
+  exists its, Forall (bitem j kd) its /\
+              MergeOf (prog_lines j prog) (flat_map item_lines its) /\
+              obj (zrun cfg prog sched) j = zexec_items its sink0.
+Proof.
+  intros Hk Hc.
+  destruct (atomicity sinkst sact sact_run item item_sec (fun t => thread_items cfg (nth t prog [])) (fun _ => sink0) sched Hc j)
+    as (lab & Ho & Hobj).
+  exists (map snd lab). split; [|split].
+  - apply Forall_forall. intros it Hin. apply in_map_iff in Hin. destruct Hin as ([t it'] & E & Hin). cbn in E. subst it'.
+    apply owned_in in Hin. rewrite Ho in Hin.
+    destruct (thread_items_on cfg j kd (nth t prog []) Hk) as [F _]. rewrite Forall_forall in F. now apply F.
+  - apply (merge_ext (fun t => flat_map item_lines (zon_lock j (thread_items cfg (nth t prog []))))).
+    + intros t. unfold prog_lines. apply (thread_items_on cfg j kd _ Hk).
+    + apply merge_flat_map. exists lab. split; [reflexivity|exact Ho].
+  - exact Hobj.
+Qed.
+
+(* Lock(ws) / CombineWriteSyncers / Open: at completion (no final Sync needed) every
+   underlying sink of the branch holds exactly a merge of the submitted lines *)
+Theorem locked_thm cfg prog sched j k :
+  nth_error cfg j = Some (KLocked k) -> zcomplete (zrun cfg prog sched) ->
+  exists sigma, MergeOf (prog_lines j prog) sigma /\
+                forall u, u < k -> outs (obj (zrun cfg prog sched) j) u = concat sigma.
+Proof.
+  intros Hk Hc. destruct (branch_serial cfg prog sched j _ Hk Hc) as (its & F & M & O).
+  exists (flat_map item_lines its). split; [exact M|]. intros u Hu. rewrite O.
+  destruct (serial_locked j k its F sink0 eq_refl) as [_ H]. now rewrite (H u Hu).
+Qed.
+
+(* BufferedWriteSyncer: after the final Sync the sink holds a merge; before it, a
+   whole number of lines of that merge *)
+Theorem buffered_thm cfg prog sched j size :
+  nth_error cfg j = Some (KBuffered size) -> zcomplete (zrun cfg prog sched) ->
+  exists sigma, MergeOf (prog_lines j prog) sigma /\
+                final_out (zrun cfg prog sched) j 0 = concat sigma /\
+                exists n, outs (obj (zrun cfg prog sched) j) 0 = concat (firstn n sigma).
+Proof.
+  intros Hk Hc. destruct (branch_serial cfg prog sched j _ Hk Hc) as (its & F & M & O).
+  exists (flat_map item_lines its). split; [exact M|]. unfold final_out. rewrite O. split.
+  - apply (serial_out j (KBuffered size) its F 0). cbn. lia.
+  - apply (serial_buffered_prefix j size its F).
+Qed.
+
+(* every branch of a tee, whatever its sink, receives the full set *)
+Theorem tee_thm cfg prog sched :
+  zcomplete (zrun cfg prog sched) ->
+  forall j kd, nth_error cfg j = Some kd ->
+  exists sigma, MergeOf (prog_lines j prog) sigma /\
+                forall u, u < nsinks kd -> final_out (zrun cfg prog sched) j u = concat sigma.
+Proof.
+  intros Hc j kd Hk. destruct (branch_serial cfg prog sched j _ Hk Hc) as (its & F & M & O).
+  exists (flat_map item_lines its). split; [exact M|]. intros u Hu. unfold final_out. rewrite O.
+  now apply (serial_out j kd its F u).
+Qed.
